@@ -1,6 +1,7 @@
 """'pcp' engine: the real pdcp/rpdcp (whole pdsh rebuilt out of tree, ASan+UBSan) run inside throw-away
 directory trees; snapshots; conversion of trees to and from the model runner's token format."""
-import os, stat, subprocess, shutil, hashlib
+import os, stat, subprocess, shutil, hashlib, sys
+sys.setrecursionlimit(20000)       # trees nested thousands of levels deep are walked recursively
 import vlib, realeng
 
 REPO = vlib.REPO
